@@ -31,7 +31,7 @@ def overlay(o):
     assert(gates(*self) == g0.push(arith_row(0, neg1(), 0, neg1(), 0, spec_r_high(nb), high.idx(), 0, n0 as nat, 0)));
     assert(diff.idx() == n0);
 }""")
-    f.after("self.range_check(diff, high_bits)", KEEP + """
+    f.before("let diff_inverse =", KEEP + """
 let ghost g1 = gates(*self); let ghost n1 = wits(*self).len() as int;
 proof { assert(n1 == n0 + 1 + rcall_wits(hb)); }""")
     f.after("let r_low_minus_low =", KEEP)
